@@ -1,6 +1,6 @@
 """Emission-level engine: whole generated crates (real CLI) against the files the Coq model predicts, byte for byte after
 the same canonicalisation (string literals re-created from their values, syn, prettyplease); plus syn-based direct oracles."""
-import os, time, re, glob
+import os, time, re, glob, json, subprocess
 from concurrent.futures import ThreadPoolExecutor
 from .common import *
 from .fsprops import build_cli
@@ -207,7 +207,215 @@ def det_run(tier, seed, d):
     return stats, diffs
 
 
-def run(prop, tier, seed, extra_props=(), also_hir=False, compile_layer=False, det_layer=False):
+EXEC_BASE = f'{CACHE}/target-exec-base'
+
+
+def exec_warm():
+    """setup: build serde, serde_json, chrono, tokio and the stand-ins once in the dev profile (the execution layer links binaries)"""
+    import shutil
+    d = rundir('WARMX')
+    shutil.rmtree(d, ignore_errors=True)
+    os.makedirs(d)
+    sh(f'{HARNESS} emit-crates --drivers --seed 1 --n 1 --out {d} --shard 9 --profile safe > /dev/null 2>&1')
+    members = sorted(x for x in os.listdir(d) if x.startswith('c') and os.path.exists(f'{d}/{x}/Cargo.toml'))
+    open(f'{d}/Cargo.toml', 'w').write('[workspace]\nresolver = "2"\nmembers = [%s]\n' % ', '.join(f'"{m}"' for m in members))
+    shutil.copy('/repo/Cargo.lock', f'{d}/Cargo.lock')
+    env = dict(os.environ, CARGO_NET_OFFLINE='true', CARGO_TARGET_DIR=EXEC_BASE, RUSTFLAGS='-Awarnings')
+    rc, out, _ = sh('cargo build --workspace --examples --offline --keep-going -q 2>&1 | tail -3', cwd=d, env=env, timeout=3000)
+    shutil.rmtree(d, ignore_errors=True)
+    # keep the dependencies, drop what belongs to the warm-up crate
+    for f in glob.glob(f'{EXEC_BASE}/debug/examples/*'):
+        try:
+            os.remove(f)
+        except IsADirectoryError:
+            pass
+    print('execution layer warm-up:', 'ok' if rc == 0 else out[-300:])
+
+
+def canon_request(rec):
+    """canonical text of a recorded request (credentials taken out), and the credential entries"""
+    def hx(s):
+        return s.encode().hex()
+    creds = []
+
+    def split(pairs, place):
+        keep = []
+        for k, v in pairs:
+            if 'val_' in v:
+                creds.append((place, k, v))
+            else:
+                keep.append((k, v))
+        return keep
+    q = split(rec.get('query') or [], 'query')
+    h = split(rec.get('headers') or [], 'header')
+    c = split(rec.get('cookies') or [], 'cookie')
+    for place in ('bearer', 'basic', 'token'):
+        if rec.get(place) is not None:
+            creds.append((place, '', rec[place]))
+    for m in rec.get('middlewares') or []:
+        creds.append(('middleware', '', m))
+    # the index an array-valued query parameter may carry is not part of its name
+    q = [(re.sub(r'\[\d+\]', '[]', k), v) for k, v in q]
+    # the order among different keys is nobody's business; the order of the values of one key is kept
+    q = sorted(q, key=lambda kv: kv[0]); h = sorted(h, key=lambda kv: kv[0]); c = sorted(c, key=lambda kv: kv[0])
+
+    def pairs(l):
+        return ';'.join(f'{hx(k)}={hx(v)}' for k, v in l)
+
+    def scalar(x):
+        if isinstance(x, bool):
+            return 'true' if x else 'false'
+        if isinstance(x, (int, float)):
+            return json.dumps(x)
+        return x if isinstance(x, str) else json.dumps(x, sort_keys=True)
+    body = rec.get('body')
+    b = []
+    if isinstance(body, dict):
+        for k in sorted(body):
+            v = body[k]
+            if v is None:
+                continue
+            if isinstance(v, list):
+                b.append(f'{hx(k)}=l' + ','.join(hx(scalar(x)) for x in v))
+            else:
+                b.append(f'{hx(k)}=s{hx(scalar(v))}')
+    elif body is not None:
+        b.append('RAW=' + hx(json.dumps(body, sort_keys=True)))
+    text = '|'.join([rec.get('method', ''), rec.get('url', ''), pairs(q), pairs(h), pairs(c), ';'.join(b)])
+    return text, creds
+
+
+def sort_body(canon):
+    parts = canon.split('|')
+    if len(parts) == 6:
+        for i in (2, 3, 4):
+            parts[i] = ';'.join(sorted((x for x in parts[i].split(';') if x), key=lambda x: x.split('=')[0]))
+        parts[5] = ';'.join(sorted(x for x in parts[5].split(';') if x))
+    return '|'.join(parts)
+
+
+def exec_run(tier, seed, d):
+    """C03/C14/C15/C16 execution layer: generated client methods and examples run against the recording stand-in."""
+    import shutil, base64
+    cd = f'{d}/xcrates'
+    shutil.rmtree(cd, ignore_errors=True)
+    os.makedirs(cd)
+    per = 3 if tier == 'quick' else 40
+    profs = ['tame', 'rich', 'tame', 'tame', 'rich', 'tame', 'tame', 'rich']
+
+    def gen(i):
+        sh(f'{HARNESS} emit-crates --drivers --seed {seed + 77} --n {per} --out {cd} --shard {i} --profile {profs[i % len(profs)]} > /dev/null 2>{cd}/err_{i}.txt')
+    with ThreadPoolExecutor(16) as ex:
+        list(ex.map(gen, range(8)))
+    members = sorted(x for x in os.listdir(cd) if x.startswith('c') and os.path.exists(f'{cd}/{x}/Cargo.toml'))
+    open(f'{cd}/Cargo.toml', 'w').write('[workspace]\nresolver = "2"\nmembers = [%s]\n' % ', '.join(f'"{m}"' for m in members))
+    shutil.copy('/repo/Cargo.lock', f'{cd}/Cargo.lock')
+    tgt = f'{cd}/target'
+    if os.path.isdir(EXEC_BASE):
+        sh(f'cp -al {EXEC_BASE} {tgt}')
+    env = dict(os.environ, CARGO_NET_OFFLINE='true', CARGO_TARGET_DIR=tgt, RUSTFLAGS='-Awarnings')
+    rc, out, _ = sh('cargo build --workspace --examples --offline --keep-going -q 2>&1 | tail -5', cwd=cd, env=env, timeout=7200)
+    cases = {}
+    for f in glob.glob(f'{cd}/index_*.txt'):
+        for l in open(f):
+            q = l.rstrip('\n').split('\t')
+            if len(q) >= 4:
+                cases[q[0]] = q[3]
+    expect = {}
+    for f in glob.glob(f'{cd}/expect_*.txt'):
+        for l in open(f):
+            q = l.rstrip('\n').split('\t')
+            if len(q) == 2:
+                expect[q[0]] = json.loads(q[1])
+    drivers = []
+    for f in glob.glob(f'{cd}/drivers_*.txt'):
+        for l in open(f):
+            q = l.rstrip('\n').split('\t')
+            if len(q) == 5:
+                drivers.append(dict(crate=q[0], name=q[1], kind=q[2], op=q[3], args=q[4]))
+    rejected = set()
+    for f in glob.glob(f'{cd}/known_*.txt'):
+        for l in open(f):
+            rejected.add(l.split('\t')[0])
+    stats = {'crates': len(members), 'drivers': len(drivers), 'ran': 0, 'not_built': 0, 'requests': 0, 'agree': 0}
+    findings = []; disagreements = []
+    # what the model predicts for the method-call drivers
+    with open(f'{cd}/rcases.txt', 'w') as f:
+        for dr in drivers:
+            if dr['kind'] == 'call' and dr['crate'] in cases:
+                f.write(f"{dr['crate']} {dr['name']} {dr['op']} {dr['args']} {cases[dr['crate']]}\n")
+    rc, mout, _ = sh(f'{DRIVER} request < {cd}/rcases.txt', timeout=1800)
+    model = {}
+    for l in mout.split('\n'):
+        q = l.split(' ')
+        if len(q) == 3:
+            model[(q[0], q[1])] = q[2]
+    for dr in drivers:
+        cid = dr['crate']
+        exe = f"{tgt}/debug/examples/{dr['name']}"
+        spec = dehex(cases.get(cid, ''))[:5000]
+        if not os.path.exists(exe):
+            stats['not_built'] += 1
+            if cid not in rejected and dr['kind'] == 'call':
+                # the library compiles (no expected rejection) but a program written from the declared inputs does not
+                findings.append((cid, 'C05', '', f"driver {dr['name']} for operation {bytes.fromhex(dr['op'][1:]).decode()} does not compile against the generated crate: the method does not take the declared inputs (required ones as arguments, optional ones as setters)", spec))
+            continue
+        lib = open(f'{cd}/c{cid}/src/lib.rs').read()
+        envv = dict(os.environ)
+        for name in set(re.findall(r'std::env::var\(\s*"([^"]+)"\s*\)', lib)):
+            envv[name] = 'val_' + name
+        p = subprocess.run([exe], env=envv, stdout=subprocess.PIPE, stderr=subprocess.PIPE, text=True, timeout=60)
+        stats['ran'] += 1
+        reqs = [json.loads(l[8:]) for l in p.stdout.split('\n') if l.startswith('REQUEST ')]
+        stats['requests'] += len(reqs)
+        what = f"{dr['kind']} {dr['name']} (operation {bytes.fromhex(dr['op'][1:]).decode()})"
+        if len(reqs) != 1:
+            findings.append((cid, 'C16' if dr['kind'] == 'example' else 'C03', '', f'{what}: {len(reqs)} requests were sent, expected exactly one; stderr: {p.stderr[-300:]}', spec))
+            continue
+        rec = reqs[0]
+        text, creds = canon_request(rec)
+        ex = expect.get(cid, {})
+        # C15: where the base URL comes from
+        srv = ex.get('server', {})
+        want_base = srv.get('url') if 'url' in srv else 'val_' + srv.get('env', '?')
+        if rec.get('base_url') != want_base:
+            cls = 'several_servers_not_env' if ex.get('n_servers', 0) >= 2 else ''
+            findings.append((cid, 'C15', cls, f'{what}: base URL {rec.get("base_url")!r}, the document asks for {want_base!r}', spec))
+        # C14: the credentials of the first requirement, each from <SERVICE>_<NAME>, at the declared place
+        if ex.get('auth') == 'token':
+            for cr in ex.get('credentials', []):
+                val = 'val_' + cr['env']
+                if cr['place'] == 'basic':
+                    val = base64.b64encode(val.encode()).decode().rstrip('=')
+                want = (cr['place'], cr.get('key', '') if cr['place'] in ('header', 'query', 'cookie') else '', val)
+                if want not in creds:
+                    findings.append((cid, 'C14', '', f'{what}: credential of scheme {cr["scheme"]} expected as {want}, the request carries {creds}', spec))
+        elif ex.get('auth') in ('none', 'anonymous') and creds:
+            findings.append((cid, 'C14', '', f'{what}: no credential is declared but the request carries {creds}', spec))
+        if dr['kind'] == 'call':
+            m = model.get((cid, dr['name']))
+            if m is None or not m.startswith('ok:'):
+                disagreements.append({'case': cid, 'driver': dr['name'], 'what': 'the model has no prediction', 'model': m, 'spec': spec})
+                continue
+            mt = bytes.fromhex(m[3:]).decode()
+            if sort_body(mt) == sort_body(text):
+                stats['agree'] += 1
+            elif len(disagreements) < 20:
+                disagreements.append({'case': cid, 'driver': dr['name'], 'what': 'executed request differs from Sem/Request.v run_operation',
+                                      'executed': text, 'model': mt, 'args': dehex(dr['args']), 'spec': spec})
+        else:
+            # libninja's own example: one request to THAT operation
+            tpl = ex.get('ops', {}).get(dr['op'])
+            if tpl:
+                verb, path = tpl
+                rx = '^' + re.sub(r'\\\{[^}]*\\\}', '[^/]+', re.escape(path)) + '$'
+                if rec.get('method') != verb or not re.match(rx, rec.get('url', '')):
+                    findings.append((cid, 'C16', '', f'{what}: the request is {rec.get("method")} {rec.get("url")}, the operation is {verb} {path}', spec))
+    shutil.rmtree(cd, ignore_errors=True)
+    return stats, findings, disagreements
+
+
+def run(prop, tier, seed, extra_props=(), also_hir=False, compile_layer=False, det_layer=False, exec_layer=False):
     t0 = time.time()
     out = Outcome(prop)
     d = rundir(prop)
@@ -217,7 +425,7 @@ def run(prop, tier, seed, extra_props=(), also_hir=False, compile_layer=False, d
     cli_ok, cli_log = build_cli()
     ps = proof_side(prop)
     total = nontriv = files_equal = 0; feats = {}; samples = []; disagreements = []; oracle = []; known_seen = {}
-    hir_part = None; compile_part = None; det_part = None
+    hir_part = None; compile_part = None; det_part = None; exec_part = None
     if not (har_ok and drv_ok and cli_ok):
         out.violation('build', {'what': 'harness, driver or CLI build failed', 'logs': {**logs, 'cli': cli_log}}, no_input=True)
     else:
@@ -246,6 +454,11 @@ def run(prop, tier, seed, extra_props=(), also_hir=False, compile_layer=False, d
                         findings.append((cid, 'C02', '', f'rustc (class {cls}): {msg}', ''))
             compile_part = dict(crates=cstats, unconfirmed_expected_rejections=cunconf[:10],
                                 rule='crates emitted by the real CLI (profiles tame/rich/wild, examples on), `cargo check --lib --examples` against /verif/standins + real serde, serde_json, chrono, tokio; an error outside the files the compile oracle expects to be rejected is a violation')
+        if exec_layer:
+            xstats, xfind, xdis = exec_run(tier, seed, d)
+            findings += xfind
+            disagreements += [dict(x, level='execution') for x in xdis]
+            exec_part = dict(xstats, rule='crates emitted by the real CLI are built with driver programs that call every client method whose inputs are strings, integers, floats, booleans or lists of those, with sentinel arguments and 1-3 subsets of the optional setters, plus a copy of each generated example; every binary runs against the recording stand-in for httpclient with every environment variable lib.rs reads set to val_<NAME>; the recorded request is compared with Sem/Request.v run_operation on the same arguments (call drivers) and with the document (exactly one request, verb and path of the operation, base URL source, credentials of the first security requirement)')
         if det_layer:
             dstats, ddiffs = det_run(tier, seed, d)
             for cid, msg, spec in ddiffs:
@@ -285,7 +498,7 @@ def run(prop, tier, seed, extra_props=(), also_hir=False, compile_layer=False, d
                evaluations=total, distinct_nontrivial=nontriv, files_compared_equal=files_equal,
                rule='corpus then generated (spec, config) pairs: specs as in the HIR engine (rich profile; every third shard wild), configs = service names of one or more words, 0-4 derive strings over simple/nested/padded/duplicate/un-tokenisable, examples on/off; every file of every emitted crate is compared with the predicted file; non-trivial = at least one feature fired; distinct by input text',
                samples=samples, feature_histogram=feats, disagreements_checked=len(disagreements), oracle_failures=len(oracle),
-               known_findings_seen={k: len(v) for k, v in known_seen.items()}, proof_problems=ps['problems'], hir_level=hir_part, compile_level=compile_part, determinism_level=det_part,
+               known_findings_seen={k: len(v) for k, v in known_seen.items()}, proof_problems=ps['problems'], hir_level=hir_part, compile_level=compile_part, determinism_level=det_part, execution_level=exec_part,
                totality_hypotheses=dict(WF, note='Spec/Wf.v hir_ok (depth 60) evaluated on every table the model extracts: t = C01_emission_total applies, f = it does not (f_but_generated: the implementation produced a crate anyway), x = extraction itself returned an error'))
     write_evidence(prop, tier, seed, 'proof', cov, time.time() - t0, len(out.violations),
                    assumptions=['names and documentation are ASCII or UTF-8 text; trimming is modelled for ASCII white space'])
